@@ -1015,6 +1015,11 @@ class Lookups2(Monitor):
         want[c] = 'error'
     want['zz'] = [L[r]['zz'] for r in matches] if 'zz' in lcols else 'error'
     want['has'] = sum(1 for row in L.values() if x in (as_list(row.get('tags')) or []))
+    # a key cell holding an error matches nothing; a table that does not exist is an error
+    want['byk'] = sorted(r for r, row in L.items() if not is_err(row.get('kk')) and
+                         row.get('kk') == lim and not isinstance(row.get('kk'), bool))
+    want['lat'] = (sum(1 for row in d['Later']['rows'].values() if row.get('y') == lim)
+                   if 'Later' in d and 'y' in d['Later']['cols'] else 'error')
     n = 0
     for c, w in sorted(want.items()):
       if c not in D:
